@@ -281,7 +281,7 @@ func runC13(t *simrt.Tape, o Opts) Outcome {
 		ids := []string{"_SK_svc_prod", "_IK_a_svc_prod", "_IK_b_svc_prod"}[:1+t.Choose(3, "nids")]
 		stamps := []int64{1893456000, 1893456060, 1893459600, 1901232000}
 		nclients := 2 + t.Choose(3, "nclients")
-		opsPer := 2 + t.Choose(7, "opsper")
+		opsPer := 2 + t.Choose(scale(o, 7, 9), "opsper")
 		rnd := simrt.NewRand(uint64(t.Choose(1<<20, "seed")) + 3)
 		var ops []porcupine.Operation
 		var tasks []*simrt.Task
